@@ -200,12 +200,20 @@ func sortConnFields(conns []singleConnFields, sortBySrc bool) []singleConnFields
 			if conns[i].Src != conns[j].Src {
 				return conns[i].Src < conns[j].Src
 			}
-			return conns[i].Dst < conns[j].Dst
+			if conns[i].Dst != conns[j].Dst {
+				return conns[i].Dst < conns[j].Dst
+			}
+			// two exposure lines may name the same peers (different potential peers may be displayed the same):
+			// order them by their connections, so the output does not depend on the order of computing them
+			return conns[i].ConnString < conns[j].ConnString
 		} // else sort by dst
 		if conns[i].Dst != conns[j].Dst {
 			return conns[i].Dst < conns[j].Dst
 		}
-		return conns[i].Src < conns[j].Src
+		if conns[i].Src != conns[j].Src {
+			return conns[i].Src < conns[j].Src
+		}
+		return conns[i].ConnString < conns[j].ConnString
 	})
 	return conns
 }
